@@ -324,6 +324,32 @@ theorem C20_roundtrip_explicit (t cp sr : Str) (l : Label) (h : tryParse facts t
     tryParse facts (toStr l) cp' [] = some l :=
   C20_roundtrip_partial t cp sr l h hcp hsr h1 (Or.inr (name_validated_of_colon h hcp hc)) h3 cp'
 
+/-- The three classes are exactly the failures: for any parse result in a valid context, the printed form
+    parses back to the same label if and only if the label is not the sentinel, its name is validated (or is
+    `...`), and its subrepo has no trailing '/'. -/
+theorem C20_roundtrip_iff (t cp sr : Str) (l : Label) (h : tryParse facts t cp sr = some l)
+    (hcp : validPkg facts cp = true) (hsr : ':' ∉ sr ∧ hasDbl sr = false) (cp' : Str) :
+    tryParse facts (toStr l) cp' [] = some l ↔
+      (l ≠ original ∧ (l.name = dots ∨ validTgt facts l.name = true) ∧ l.sub.getLast? ≠ some '/') := by
+  constructor
+  · intro hr
+    obtain ⟨hpk, hsc, hsd⟩ := C20_parse_yields_valid_package t cp sr l h hcp hsr
+    obtain ⟨_, hne⟩ := tryParse_some h
+    have h1 : l ≠ original := by
+      intro e; rw [e, tryParse_original] at hr; exact absurd hr (by simp)
+    have h3 : l.sub.getLast? ≠ some '/' := fun hl => reparse_sub_slash h1 hne hsc hsd hl cp' hr
+    refine ⟨h1, ?_, h3⟩
+    by_cases hd : l.name = dots
+    · exact Or.inl hd
+    · right
+      cases hv : validTgt facts l.name with
+      | true => rfl
+      | false =>
+        rw [reparse_bad_name factsWF h1 hpk hne hd hv ⟨hsc, hsd, h3⟩ cp'] at hr
+        exact absurd hr (by simp)
+  · rintro ⟨h1, h2, h3⟩
+    exact C20_roundtrip_partial t cp sr l h hcp hsr h1 h2 h3 cp'
+
 /-- Witness (class `roundtrip-abbrev-name-unvalidated`): `//a/.b` parses to `//a/.b:.b`, which does not parse. -/
 theorem C20_witness_roundtrip_abbrev :
     ∃ (t : Str) (l : Label), tryParse facts t [] [] = some l ∧ tryParse facts (toStr l) [] [] ≠ some l :=
